@@ -8,6 +8,10 @@ import Yae.Driver.Wire
 import Yae.Driver.Lex
 import Yae.Driver.VmWire
 import Yae.Driver.Num
+import Yae.Driver.Parse
+import Yae.Driver.Conv
+import Yae.Driver.Sql
+import Yae.Driver.Debug
 namespace Yae.Driver
 open Yae SExp
 
@@ -29,6 +33,16 @@ def uerr : UErr → SExp
 def handle (req : SExp) : SExp :=
   match req with
   | .list (.atom "lex" :: _) => (handleLex req).getD (.atom "bad-request")
+  | .list (.atom "parse" :: _) | .list (.atom "desugar" :: _) | .list (.atom "lexparse" :: _) =>
+    (handleParse req).getD (.atom "bad-request")
+  | .list (.atom "conv.type" :: _) | .list (.atom "conv.val" :: _) | .list (.atom "conv.tenv" :: _)
+  | .list (.atom "conv.venv" :: _) | .list (.atom "conv.among" :: _) | .list (.atom "envcheck" :: _) =>
+    (handleConv req).getD (.atom "bad-request")
+  | .list (.atom "sql" :: _) | .list (.atom "sql.read" :: _) | .list (.atom "sql.tree" :: _)
+  | .list (.atom "sql.c20" :: _) =>
+    (handleSql req).getD (.atom "bad-request")
+  | .list (.atom "debug.run" :: _) | .list (.atom "debug.rec" :: _) | .list (.atom "debug.render" :: _) =>
+    (handleDebug req).getD (.atom "bad-request")
   | .list (.atom "vmcode" :: _) => (handleVm req).getD (.atom "bad-request")
   | .list (.atom "vmrun" :: _) => (handleVm req).getD (.atom "bad-request")
   | .list (.atom "verify" :: _) => (handleVm req).getD (.atom "bad-request")
